@@ -1,6 +1,729 @@
 package main
 
-type SQLCat struct{}
+// SQL catalogue.  DESIGN.md §2.2.
 
-func buildSQLCat(c *Ctx) *SQLCat { return &SQLCat{} }
-func (s *SQLCat) dump()          {}
+import (
+	"fmt"
+	"go/constant"
+	"go/token"
+	"go/types"
+	"regexp"
+	"sort"
+	"strings"
+
+	"golang.org/x/tools/go/ssa"
+)
+
+type SQLStmt struct {
+	Fn       *ssa.Function
+	Site     ssa.CallInstruction
+	Method   string // Exec, Query, QueryRow, Prepare (+Context)
+	Recv     string // DB, Tx, QA
+	RecvVal  ssa.Value
+	Text     string
+	Verb     string
+	Table    string
+	Conflict string // "", "ON CONFLICT DO NOTHING", "ON CONFLICT DO UPDATE", "OR REPLACE", "OR IGNORE", "REPLACE"
+	OrderBy  bool
+	Limit    bool
+	Where    string
+	Unres    bool // contains an unresolved hole in a structural position
+	ArgsOf   ssa.CallInstruction
+}
+
+func (s *SQLStmt) isWrite() bool {
+	switch s.Verb {
+	case "INSERT", "UPDATE", "DELETE", "REPLACE", "CREATE", "CREATE-INDEX", "ALTER", "DROP":
+		return true
+	}
+	return false
+}
+
+type SQLTable struct {
+	Name    string
+	Cols    []string
+	ColDef  map[string]string
+	Uniques [][]string // includes primary keys
+	Checks  map[string]string // column -> check expression
+	RowID   string            // INTEGER PRIMARY KEY alias
+	Src     string
+}
+
+type SQLCat struct {
+	c      *Ctx
+	Stmts  []*SQLStmt
+	Tables map[string]*SQLTable
+	Unres  []string
+}
+
+const hole = "\x00"
+
+// strEval resolves the possible string values of v; holes are rendered as «desc».
+type strEval struct {
+	c     *Ctx
+	depth int
+}
+
+func holeOf(v ssa.Value) string {
+	d := valuePath(v)
+	if d == "" {
+		d = v.Name()
+	}
+	return "«" + d + "»"
+}
+
+func (se *strEval) eval(v ssa.Value, env map[*ssa.Parameter][]string, depth int) []string {
+	if depth > 6 {
+		return []string{holeOf(v)}
+	}
+	switch x := v.(type) {
+	case *ssa.Const:
+		if x.Value != nil && x.Value.Kind() == constant.String {
+			return []string{constant.StringVal(x.Value)}
+		}
+		if x.Value != nil {
+			return []string{x.Value.ExactString()}
+		}
+		return []string{holeOf(v)}
+	case *ssa.Parameter:
+		if env != nil {
+			if vals, ok := env[x]; ok {
+				return vals
+			}
+		}
+		// enumerate static call sites in the module
+		f := x.Parent()
+		idx := -1
+		for i, p := range f.Params {
+			if p == x {
+				idx = i
+			}
+		}
+		var out []string
+		for _, e := range se.c.In[f] {
+			ci, ok := e.Site.(ssa.CallInstruction)
+			if !ok || e.Kind != "static" {
+				continue
+			}
+			args := ci.Common().Args
+			if idx < len(args) {
+				out = append(out, se.eval(args[idx], nil, depth+1)...)
+			}
+		}
+		if len(out) == 0 {
+			return []string{holeOf(v)}
+		}
+		return uniq(out)
+	case *ssa.Phi:
+		var out []string
+		for _, e := range x.Edges {
+			out = append(out, se.eval(e, env, depth+1)...)
+		}
+		return uniq(out)
+	case *ssa.BinOp:
+		if x.Op == token.ADD {
+			var out []string
+			for _, a := range se.eval(x.X, env, depth+1) {
+				for _, b := range se.eval(x.Y, env, depth+1) {
+					out = append(out, a+b)
+				}
+			}
+			return out
+		}
+	case *ssa.MakeInterface:
+		return se.eval(x.X, env, depth+1)
+	case *ssa.ChangeType:
+		return se.eval(x.X, env, depth+1)
+	case *ssa.Convert:
+		return se.eval(x.X, env, depth+1)
+	case *ssa.UnOp:
+		if x.Op == token.MUL {
+			// load from array-literal element or local
+			switch a := x.X.(type) {
+			case *ssa.IndexAddr:
+				return se.elemsOf(a.X, env, depth)
+			case *ssa.Alloc:
+				var out []string
+				if refs := a.Referrers(); refs != nil {
+					for _, r := range *refs {
+						if st, ok := r.(*ssa.Store); ok && st.Addr == a {
+							out = append(out, se.eval(st.Val, env, depth+1)...)
+						}
+					}
+				}
+				if len(out) > 0 {
+					return uniq(out)
+				}
+			}
+		}
+	case *ssa.Extract:
+		if call, ok := x.Tuple.(*ssa.Call); ok {
+			if sc := call.Call.StaticCallee(); sc != nil && fnInModule(sc) && sc.Blocks != nil && sc.Signature.Recv() == nil {
+				var out []string
+				allInstrs(sc, func(ins ssa.Instruction) {
+					if r, ok := ins.(*ssa.Return); ok && x.Index < len(r.Results) {
+						out = append(out, se.eval(resolveSpill(r.Results[x.Index]), map[*ssa.Parameter][]string{}, depth+1)...)
+					}
+				})
+				if len(out) > 0 {
+					return uniq(out)
+				}
+			}
+		}
+	case *ssa.Call:
+		name := calleeName(x.Common())
+		args := x.Call.Args
+		switch name {
+		case "fmt.Sprintf":
+			fmts := se.eval(args[0], env, depth+1)
+			var vals [][]string
+			if len(args) > 1 {
+				for _, a := range varargElems(args[1]) {
+					vals = append(vals, se.eval(a, env, depth+1))
+				}
+			}
+			var out []string
+			for _, f := range fmts {
+				out = append(out, sprintfAll(f, vals)...)
+			}
+			return uniq(out)
+		case "strings.ToLower":
+			var out []string
+			for _, s := range se.eval(args[0], env, depth+1) {
+				out = append(out, lowerKeepHoles(s))
+			}
+			return out
+		case "strings.Join":
+			return []string{holeOf(v)}
+		}
+		if sc := x.Call.StaticCallee(); sc != nil && fnInModule(sc) && sc.Blocks != nil && sc.Signature.Recv() == nil {
+			if b, ok := sc.Signature.Results().At(0).Type().Underlying().(*types.Basic); ok && b.Kind() == types.String && sc.Signature.Results().Len() == 1 {
+				nenv := map[*ssa.Parameter][]string{}
+				for i, p := range sc.Params {
+					if i < len(args) {
+						if pb, ok := p.Type().Underlying().(*types.Basic); ok && pb.Kind() == types.String {
+							nenv[p] = se.eval(args[i], env, depth+1)
+						}
+					}
+				}
+				var out []string
+				allInstrs(sc, func(ins ssa.Instruction) {
+					if r, ok := ins.(*ssa.Return); ok {
+						out = append(out, se.eval(r.Results[0], nenv, depth+1)...)
+					}
+				})
+				if len(out) > 0 {
+					return uniq(out)
+				}
+			}
+		}
+	}
+	return []string{holeOf(v)}
+}
+
+// elemsOf: all values stored into elements of the array/slice behind v.
+func (se *strEval) elemsOf(v ssa.Value, env map[*ssa.Parameter][]string, depth int) []string {
+	switch x := v.(type) {
+	case *ssa.Slice:
+		return se.elemsOf(x.X, env, depth)
+	case *ssa.Alloc:
+		var out []string
+		if refs := x.Referrers(); refs != nil {
+			for _, r := range *refs {
+				if ia, ok := r.(*ssa.IndexAddr); ok {
+					if irefs := ia.Referrers(); irefs != nil {
+						for _, rr := range *irefs {
+							if st, ok := rr.(*ssa.Store); ok && st.Addr == ia {
+								out = append(out, se.eval(st.Val, env, depth+1)...)
+							}
+						}
+					}
+				}
+			}
+		}
+		if len(out) > 0 {
+			return uniq(out)
+		}
+	case *ssa.Phi:
+		var out []string
+		for _, e := range x.Edges {
+			out = append(out, se.elemsOf(e, env, depth+1)...)
+		}
+		return uniq(out)
+	}
+	return []string{holeOf(v)}
+}
+
+// varargElems returns the elements of a variadic argument slice built at the call site.
+func varargElems(v ssa.Value) []ssa.Value {
+	sl, ok := v.(*ssa.Slice)
+	if !ok {
+		return nil
+	}
+	al, ok := sl.X.(*ssa.Alloc)
+	if !ok {
+		return nil
+	}
+	elems := map[int64]ssa.Value{}
+	max := int64(-1)
+	if refs := al.Referrers(); refs != nil {
+		for _, r := range *refs {
+			ia, ok := r.(*ssa.IndexAddr)
+			if !ok {
+				continue
+			}
+			c, ok := ia.Index.(*ssa.Const)
+			if !ok {
+				continue
+			}
+			i := c.Int64()
+			if irefs := ia.Referrers(); irefs != nil {
+				for _, rr := range *irefs {
+					if st, ok := rr.(*ssa.Store); ok && st.Addr == ia {
+						elems[i] = st.Val
+						if i > max {
+							max = i
+						}
+					}
+				}
+			}
+		}
+	}
+	var out []ssa.Value
+	for i := int64(0); i <= max; i++ {
+		out = append(out, elems[i])
+	}
+	return out
+}
+
+var verbRe = regexp.MustCompile(`%(\[(\d+)\])?[-+# 0]*\d*(\.\d+)?[a-zA-Z%]`)
+
+func sprintfAll(f string, vals [][]string) []string {
+	// cartesian product is never needed beyond a handful here; cap it.
+	outs := []string{""}
+	next := 0
+	last := 0
+	for _, m := range verbRe.FindAllStringSubmatchIndex(f, -1) {
+		lit := f[last:m[0]]
+		last = m[1]
+		verb := f[m[0]:m[1]]
+		if verb == "%%" {
+			for i := range outs {
+				outs[i] += lit + "%"
+			}
+			continue
+		}
+		idx := next
+		if m[4] >= 0 {
+			fmt.Sscanf(f[m[4]:m[5]], "%d", &idx)
+			idx--
+		}
+		next = idx + 1
+		var subs []string
+		if idx >= 0 && idx < len(vals) && len(vals[idx]) > 0 {
+			subs = vals[idx]
+		} else {
+			subs = []string{"«arg»"}
+		}
+		var n []string
+		for _, o := range outs {
+			for _, s := range subs {
+				if len(n) < 64 {
+					n = append(n, o+lit+s)
+				}
+			}
+		}
+		outs = n
+	}
+	for i := range outs {
+		outs[i] += f[last:]
+	}
+	return outs
+}
+
+func lowerKeepHoles(s string) string {
+	var b strings.Builder
+	in := false
+	for _, r := range s {
+		if r == '«' {
+			in = true
+		}
+		if in {
+			b.WriteRune(r)
+		} else {
+			b.WriteString(strings.ToLower(string(r)))
+		}
+		if r == '»' {
+			in = false
+		}
+	}
+	return b.String()
+}
+
+func uniq(xs []string) []string {
+	seen := map[string]bool{}
+	var out []string
+	for _, x := range xs {
+		if !seen[x] {
+			seen[x] = true
+			out = append(out, x)
+		}
+	}
+	return out
+}
+
+// recvClass classifies the receiver of a database call.
+func recvClass(cc *ssa.CallCommon) (string, ssa.Value) {
+	var rv ssa.Value
+	var t types.Type
+	if cc.IsInvoke() {
+		rv = cc.Value
+		t = rv.Type()
+	} else if len(cc.Args) > 0 {
+		rv = cc.Args[0]
+		t = rv.Type()
+	}
+	switch {
+	case t == nil:
+		return "", nil
+	case isNamed(t, "database/sql", "DB"):
+		return "DB", rv
+	case isNamed(t, "database/sql", "Tx"):
+		return "Tx", rv
+	case isNamed(t, "database/sql", "Stmt"):
+		return "Stmt", rv
+	case isNamed(t, modPath+"/node/pegnet", "QueryAble"):
+		return "QA", rv
+	}
+	return "", rv
+}
+
+var holeRe = regexp.MustCompile(`«[^»]*»`)
+
+var sqlMethods = map[string]int{ // method -> index of the query argument among non-receiver args
+	"Exec": 0, "Query": 0, "QueryRow": 0, "Prepare": 0,
+	"ExecContext": 1, "QueryContext": 1, "QueryRowContext": 1, "PrepareContext": 1,
+}
+
+func buildSQLCat(c *Ctx) *SQLCat {
+	cat := &SQLCat{c: c, Tables: map[string]*SQLTable{}}
+	se := &strEval{c: c}
+	for _, f := range c.Funcs {
+		for _, ci := range callsOf(f) {
+			cc := ci.Common()
+			var mname string
+			if cc.IsInvoke() {
+				mname = cc.Method.Name()
+			} else if sc := cc.StaticCallee(); sc != nil {
+				mname = sc.Name()
+			}
+			qi, ok := sqlMethods[mname]
+			if !ok {
+				continue
+			}
+			cls, rv := recvClass(cc)
+			if cls == "" || cls == "Stmt" {
+				continue
+			}
+			args := cc.Args
+			if !cc.IsInvoke() {
+				args = args[1:]
+			}
+			if qi >= len(args) {
+				continue
+			}
+			seenText := map[string]bool{}
+			for _, text := range se.eval(args[qi], nil, 0) {
+				for _, part := range splitSQL(text) {
+					norm := holeRe.ReplaceAllString(part, "«»")
+					if seenText[norm] {
+						continue
+					}
+					seenText[norm] = true
+					st := parseSQL(part)
+					st.Fn, st.Site, st.Method, st.Recv, st.RecvVal = f, ci, mname, cls, rv
+					cat.Stmts = append(cat.Stmts, st)
+					if st.Verb == "CREATE" && st.Table != "" && strings.Contains(strings.ToUpper(part), "CREATE TABLE") {
+						cat.addTable(st.Table, part)
+					}
+					if st.Unres {
+						cat.Unres = append(cat.Unres, fmt.Sprintf("%s @ %s: %s", fname(f), c.ipos(ci), oneLine(part)))
+					}
+				}
+			}
+		}
+	}
+	sort.SliceStable(cat.Stmts, func(i, j int) bool {
+		a, b := cat.Stmts[i], cat.Stmts[j]
+		if fname(a.Fn) != fname(b.Fn) {
+			return fname(a.Fn) < fname(b.Fn)
+		}
+		return a.Site.Pos() < b.Site.Pos()
+	})
+	return cat
+}
+
+func oneLine(s string) string {
+	s = strings.Join(strings.Fields(s), " ")
+	if len(s) > 160 {
+		s = s[:160] + "…"
+	}
+	return s
+}
+
+// splitSQL splits on ';' outside quotes, dropping comments and empty parts.
+func splitSQL(s string) []string {
+	// strip -- comments
+	var lines []string
+	for _, l := range strings.Split(s, "\n") {
+		if i := strings.Index(l, "--"); i >= 0 {
+			l = l[:i]
+		}
+		lines = append(lines, l)
+	}
+	s = strings.Join(lines, "\n")
+	var out []string
+	var cur strings.Builder
+	q := rune(0)
+	for _, r := range s {
+		if q != 0 {
+			cur.WriteRune(r)
+			if r == q {
+				q = 0
+			}
+			continue
+		}
+		switch r {
+		case '\'', '"', '`':
+			q = r
+			cur.WriteRune(r)
+		case ';':
+			if strings.TrimSpace(cur.String()) != "" {
+				out = append(out, strings.TrimSpace(cur.String()))
+			}
+			cur.Reset()
+		default:
+			cur.WriteRune(r)
+		}
+	}
+	if strings.TrimSpace(cur.String()) != "" {
+		out = append(out, strings.TrimSpace(cur.String()))
+	}
+	return out
+}
+
+var identRe = regexp.MustCompile(`^["` + "`" + `']?([A-Za-z_«][A-Za-z0-9_.«»\[\]()$#* -]*?)["` + "`" + `']?$`)
+
+func cleanIdent(s string) string {
+	s = strings.TrimSpace(s)
+	s = strings.TrimLeft(s, "\"`'(")
+	if i := strings.IndexAny(s, "( \t\n"); i > 0 && !strings.HasPrefix(s, "«") {
+		s = s[:i]
+	}
+	s = strings.Trim(s, "\"`'();,")
+	return s
+}
+
+func parseSQL(text string) *SQLStmt {
+	st := &SQLStmt{Text: text}
+	toks := strings.Fields(text)
+	if len(toks) == 0 {
+		return st
+	}
+	up := make([]string, len(toks))
+	for i, t := range toks {
+		up[i] = strings.ToUpper(t)
+	}
+	st.Verb = strings.Trim(up[0], "(")
+	find := func(words ...string) int {
+		for i := 0; i+len(words) <= len(up); i++ {
+			ok := true
+			for j, w := range words {
+				if strings.Trim(up[i+j], "();,") != w {
+					ok = false
+					break
+				}
+			}
+			if ok {
+				return i
+			}
+		}
+		return -1
+	}
+	after := func(i int) string {
+		if i >= 0 && i < len(toks) {
+			return cleanIdent(toks[i])
+		}
+		return ""
+	}
+	U := strings.ToUpper(text)
+	switch st.Verb {
+	case "INSERT":
+		if i := find("INTO"); i >= 0 {
+			st.Table = after(i + 1)
+		}
+		if find("OR", "REPLACE") == 1 {
+			st.Conflict = "OR REPLACE"
+		} else if find("OR", "IGNORE") == 1 {
+			st.Conflict = "OR IGNORE"
+		} else if i := strings.Index(U, "ON CONFLICT"); i >= 0 {
+			rest := U[i:]
+			if strings.Contains(rest, "DO NOTHING") {
+				st.Conflict = "ON CONFLICT DO NOTHING"
+			} else {
+				st.Conflict = "ON CONFLICT DO UPDATE"
+			}
+		}
+	case "REPLACE":
+		if i := find("INTO"); i >= 0 {
+			st.Table = after(i + 1)
+		}
+		st.Conflict = "REPLACE"
+	case "UPDATE":
+		st.Table = after(1)
+		if strings.HasPrefix(up[1], "OR") && len(up) > 3 {
+			st.Conflict = "OR " + up[2]
+			st.Table = after(3)
+		}
+	case "DELETE":
+		if i := find("FROM"); i >= 0 {
+			st.Table = after(i + 1)
+		}
+	case "SELECT":
+		if i := find("FROM"); i >= 0 {
+			st.Table = after(i + 1)
+		}
+	case "CREATE":
+		if i := find("TABLE"); i == 1 {
+			j := 2
+			if find("IF", "NOT", "EXISTS") == 2 {
+				j = 5
+			}
+			st.Table = after(j)
+		} else if i := find("ON"); i >= 0 {
+			st.Verb = "CREATE-INDEX"
+			st.Table = after(i + 1)
+		}
+	case "ALTER", "DROP":
+		if i := find("TABLE"); i >= 0 {
+			st.Table = after(i + 1)
+		}
+	}
+	st.OrderBy = strings.Contains(U, "ORDER BY")
+	st.Limit = strings.Contains(U, " LIMIT ")
+	if i := strings.Index(U, "WHERE"); i >= 0 {
+		st.Where = oneLine(text[i:])
+	}
+	if st.Table == "" && (st.Verb == "INSERT" || st.Verb == "UPDATE" || st.Verb == "DELETE" || st.Verb == "REPLACE" || st.Verb == "ALTER" || st.Verb == "DROP" || st.Verb == "CREATE") {
+		st.Unres = true
+	}
+	if strings.HasPrefix(st.Table, "«") || strings.HasPrefix(st.Verb, "«") {
+		st.Unres = true
+	}
+	return st
+}
+
+// addTable parses a CREATE TABLE statement into the schema.
+func (cat *SQLCat) addTable(name, text string) {
+	if _, ok := cat.Tables[name]; ok {
+		return
+	}
+	open := strings.Index(text, "(")
+	close := strings.LastIndex(text, ")")
+	if open < 0 || close < open {
+		return
+	}
+	t := &SQLTable{Name: name, ColDef: map[string]string{}, Checks: map[string]string{}, Src: text}
+	body := text[open+1 : close]
+	// split on top-level commas
+	var items []string
+	depth := 0
+	var cur strings.Builder
+	for _, r := range body {
+		switch r {
+		case '(':
+			depth++
+		case ')':
+			depth--
+		}
+		if r == ',' && depth == 0 {
+			items = append(items, strings.TrimSpace(cur.String()))
+			cur.Reset()
+			continue
+		}
+		cur.WriteRune(r)
+	}
+	if strings.TrimSpace(cur.String()) != "" {
+		items = append(items, strings.TrimSpace(cur.String()))
+	}
+	colsIn := func(s string) []string {
+		o := strings.Index(s, "(")
+		c := strings.Index(s, ")")
+		if o < 0 || c < o {
+			return nil
+		}
+		var cols []string
+		for _, p := range strings.Split(s[o+1:c], ",") {
+			cols = append(cols, cleanIdent(p))
+		}
+		return cols
+	}
+	for _, it := range items {
+		U := strings.ToUpper(it)
+		switch {
+		case strings.HasPrefix(U, "PRIMARY KEY"), strings.HasPrefix(U, "UNIQUE"):
+			t.Uniques = append(t.Uniques, colsIn(it))
+		case strings.HasPrefix(U, "FOREIGN KEY"), strings.HasPrefix(U, "CONSTRAINT"), strings.HasPrefix(U, "CHECK"):
+		default:
+			f := strings.Fields(it)
+			if len(f) == 0 {
+				continue
+			}
+			col := cleanIdent(f[0])
+			t.Cols = append(t.Cols, col)
+			t.ColDef[col] = oneLine(it)
+			if strings.Contains(U, "PRIMARY KEY") {
+				t.Uniques = append(t.Uniques, []string{col})
+				if strings.Contains(U, "INTEGER PRIMARY KEY") {
+					t.RowID = col
+				}
+			} else if strings.Contains(U, " UNIQUE") {
+				t.Uniques = append(t.Uniques, []string{col})
+			}
+			if i := strings.Index(U, "CHECK"); i >= 0 {
+				t.Checks[col] = oneLine(it[i:])
+			}
+		}
+	}
+	cat.Tables[name] = t
+}
+
+func (cat *SQLCat) dump() {
+	for _, s := range cat.Stmts {
+		fmt.Printf("%-60s %-5s %-8s %-8s %-36s %-24s %s\n", fname(s.Fn), s.Recv, s.Method, s.Verb, s.Table, s.Conflict, cat.c.ipos(s.Site))
+	}
+	var names []string
+	for n := range cat.Tables {
+		names = append(names, n)
+	}
+	sort.Strings(names)
+	for _, n := range names {
+		t := cat.Tables[n]
+		fmt.Printf("TABLE %s cols=%d uniques=%v checks=%d rowid=%s\n", n, len(t.Cols), t.Uniques, len(t.Checks), t.RowID)
+	}
+	for _, u := range cat.Unres {
+		fmt.Println("UNRESOLVED", u)
+	}
+	fmt.Println("statements", len(cat.Stmts), "tables", len(cat.Tables))
+}
+
+// stmtsIn returns the statements issued directly by functions of the set.
+func (cat *SQLCat) stmtsIn(set map[*ssa.Function]bool) []*SQLStmt {
+	var out []*SQLStmt
+	for _, s := range cat.Stmts {
+		if set[s.Fn] {
+			out = append(out, s)
+		}
+	}
+	return out
+}
